@@ -149,6 +149,10 @@ func checkC04(p *Prog, r *Report) {
 }
 
 func checkMarshalCallSites(p *Prog, r *Report, mr *ssa.Function) {
+	checkMarshalCallSitesRule(p, r, mr, "C04.call-sites")
+}
+
+func checkMarshalCallSitesRule(p *Prog, r *Report, mr *ssa.Function, rule string) {
 	n := 0
 	for _, name := range []string{"MarshalDocument", "MarshalCollection"} {
 		f := p.Fn(name)
@@ -197,7 +201,7 @@ func checkMarshalCallSites(p *Prog, r *Report, mr *ssa.Function) {
 					}
 				}
 			}
-			r.decide(good, "C04.call-sites", name+":"+p.describe(c), p.pos(c.Pos()), "selection = Fields[x.GetType().Name] for the resource x being marshaled",
+			r.decide(good, rule, name+":"+p.describe(c), p.pos(c.Pos()), "selection = Fields[x.GetType().Name] for the resource x being marshaled",
 				"a resource is marshaled with a field selection that is not Fields[<its own type name>]: "+why)
 			// relData argument: the document's RelData / the relData parameter
 			rd := c.Common().Args[3]
@@ -208,7 +212,7 @@ func checkMarshalCallSites(p *Prog, r *Report, mr *ssa.Function) {
 			if prm, ok := rd.(*ssa.Parameter); ok && prm.Name() == "relData" {
 				okRD = true
 			}
-			r.decide(okRD, "C04.call-sites", name+":relData:"+p.describe(c), p.pos(c.Pos()), "passes the document's RelData", "the relationship-data request passed to MarshalResource is not the document's RelData")
+			r.decide(okRD, rule, name+":relData:"+p.describe(c), p.pos(c.Pos()), "passes the document's RelData", "the relationship-data request passed to MarshalResource is not the document's RelData")
 		})
 	}
 	r.floor("MarshalResource call sites", n, 3)
